@@ -9,6 +9,7 @@ import (
 	"testing"
 	"time"
 
+	"github.com/openziti/storage/ast"
 	"github.com/openziti/storage/boltz"
 	"pgregory.net/rapid"
 
@@ -110,6 +111,13 @@ func expectedEvents(m *kit.Model, tx kit.TxSpec) (evs []kit.Event, commits bool,
 				ignoreKidIDs[cc.Name+"|"+op.ID] = true
 			}
 		}
+		// two registrations on the parent store that share the slice holding their second change type
+		if typ == "created" || typ == "updated" {
+			evs = append(evs, kit.Event{Store: "things", Style: "listener-created-or-updated", Type: "?", ID: op.ID})
+		}
+		if typ == "deleted" || typ == "updated" {
+			evs = append(evs, kit.Event{Store: "things", Style: "listener-deleted-or-updated", Type: "?", ID: op.ID})
+		}
 		styles := append(append(append([]string{}, kit.ListenerStyles...), "listener-async", "listener-async-typed"), kit.MultiStyles...)
 		for _, style := range styles {
 			info := kit.MEntInfo(ent, "")
@@ -138,6 +146,56 @@ func expectedEvents(m *kit.Model, tx kit.TxSpec) (evs []kit.Event, commits bool,
 	return evs, true, ignoreKidIDs
 }
 
+// an entity type without time stamps: saving it again unchanged stores exactly what was there
+type c08Plain struct {
+	Id   string
+	Name string
+}
+
+func (p *c08Plain) GetId() string         { return p.Id }
+func (p *c08Plain) SetId(id string)       { p.Id = id }
+func (p *c08Plain) GetEntityType() string { return "plains" }
+
+type c08PlainStrategy struct{}
+
+func (c08PlainStrategy) NewEntity() *c08Plain { return &c08Plain{} }
+func (c08PlainStrategy) FillEntity(p *c08Plain, b *boltz.TypedBucket) {
+	p.Name = b.GetStringWithDefault("name", "")
+}
+func (c08PlainStrategy) PersistEntity(p *c08Plain, ctx *boltz.PersistContext) {
+	ctx.SetString("name", p.Name)
+}
+
+// c08UnchangedUpdate: a committed update is reported to the update listeners whether or not it changed anything.
+func c08UnchangedUpdate(w *kit.World) error {
+	plains := boltz.NewBaseStore(boltz.StoreDefinition[*c08Plain]{EntityType: "plains", EntityStrategy: c08PlainStrategy{}, BasePath: w.Cfg.Base()})
+	plains.InitImpl(plains)
+	plains.AddIdSymbol("id", ast.NodeTypeString)
+	var created, updated atomic.Int32
+	plains.AddEntityIdListener(func(string) { created.Add(1) }, boltz.EntityCreated)
+	plains.AddEntityIdListener(func(string) { updated.Add(1) }, boltz.EntityUpdated)
+	steps := []struct {
+		what string
+		f    func(ctx boltz.MutateContext) error
+	}{
+		{"create", func(ctx boltz.MutateContext) error { return plains.Create(ctx, &c08Plain{Id: "pl1", Name: "a"}) }},
+		{"update that stores the same values again", func(ctx boltz.MutateContext) error { return plains.Update(ctx, &c08Plain{Id: "pl1", Name: "a"}, nil) }},
+		{"update that changes the name", func(ctx boltz.MutateContext) error { return plains.Update(ctx, &c08Plain{Id: "pl1", Name: "b"}, nil) }},
+	}
+	for i, st := range steps {
+		if err := w.Z.Db.Update(kit.NewCtx(), st.f); err != nil {
+			return fmt.Errorf("entity without time stamps: %s failed: %v", st.what, err)
+		}
+		if err := w.Barrier(); err != nil {
+			return err
+		}
+		if c, u := created.Load(), updated.Load(); c != 1 || int(u) != i {
+			return fmt.Errorf("entity without time stamps: after the committed %s the created-listener has run %d time(s) (want 1) and the updated-listener %d time(s) (want %d)", st.what, c, u, i)
+		}
+	}
+	return nil
+}
+
 func runC08(h kit.History) kit.Result {
 	res := kit.Result{Sub: len(h.Txs)}
 	extended := h.Cfg.Children[0].Extended
@@ -155,6 +213,14 @@ func runC08(h kit.History) kit.Result {
 	if parentOnly {
 		res.Classes = append(res.Classes, "listeners-on-the-parent-store-only")
 	}
+	// two registrations whose additional change type comes from one slice with spare capacity (a caller's "and updates" slice)
+	andUpdates := append(make([]boltz.EntityEventType, 0, 4), boltz.EntityUpdated)
+	w.Stores["things"].AddListener(func(e boltz.Entity) {
+		rec.Add(kit.Event{Store: "things", Style: "listener-created-or-updated", Type: "?", ID: e.GetId()})
+	}, boltz.EntityCreated, andUpdates...)
+	w.Stores["things"].AddListener(func(e boltz.Entity) {
+		rec.Add(kit.Event{Store: "things", Style: "listener-deleted-or-updated", Type: "?", ID: e.GetId()})
+	}, boltz.EntityDeleted, andUpdates...)
 	// asynchronous listener registrations
 	w.Stores["things"].AddListener(func(e boltz.Entity) {
 		rec.Add(kit.Event{Store: "things", Style: "listener-async", Type: "?", ID: e.GetId()})
@@ -371,6 +437,10 @@ func runC08(h kit.History) kit.Result {
 			res.Err = fmt.Errorf("after %s: %v", label, err)
 			return res
 		}
+	}
+	if err := c08UnchangedUpdate(w); err != nil {
+		res.Err = err
+		return res
 	}
 	res.NonTrivial = multiOp || rollbackAfterWork || otherRoute
 	for name, on := range map[string]bool{"multi-op-committed-tx": multiOp, "rollback-after-queued-events": rollbackAfterWork, "child-entity-changed-through-parent": otherRoute} {
